@@ -42,6 +42,7 @@ type subConn struct {
 }
 
 type subMsg struct {
+	Raw      string
 	Block    uint64
 	TxHash   string
 	EvIdx    int
@@ -61,7 +62,7 @@ func (c *subConn) Write(p []byte) (int, error) {
 			} `json:"result"`
 		} `json:"params"`
 	}
-	msg := subMsg{EvIdx: -1}
+	msg := subMsg{EvIdx: -1, Raw: string(p)}
 	if err := json.Unmarshal(p, &m); err == nil {
 		msg.Block, msg.TxHash, msg.Finality = m.Params.Result.BlockNumber, m.Params.Result.TxHash, m.Params.Result.Finality
 		if len(m.Params.Result.Data) == 2 {
@@ -75,7 +76,7 @@ func (c *subConn) Write(p []byte) (int, error) {
 	return len(p), nil
 }
 func (c *subConn) Equal(o jsonrpc.Conn) bool { return c == o }
-func (c *subConn) Context() context.Context   { return c.ctx }
+func (c *subConn) Context() context.Context  { return c.ctx }
 func (c *subConn) snapshot(from int) []subMsg {
 	c.mu.Lock()
 	defer c.mu.Unlock()
@@ -226,6 +227,9 @@ func (w *World) oneSubscription(parent context.Context, ss *subSync, api subAPI,
 	// notifications for blk's number received in between.
 	send := func(blk *core.Block, gap time.Duration) ([]subMsg, bool) {
 		startIdx := conn.len()
+		if blk == nil {
+			startIdx = 0 // the historical replay starts writing as soon as the subscription exists
+		}
 		deliver := func(b *core.Block) {
 			seq++
 			if pre {
@@ -297,7 +301,7 @@ func (w *World) oneSubscription(parent context.Context, ss *subSync, api subAPI,
 	w.Res.Hit("subscription:historical-replay-checked")
 	if gotH != wantH {
 		w.Res.Violate(lib.Violation{Sig: "event-subscription-historical-replay-differs",
-			What: fmt.Sprintf("%s: subscribeEvents(%v) from block %d replayed %s, the chain has %s", api.name, f, from, gotH, wantH), Replay: rep(nil)})
+			What: fmt.Sprintf("%s: subscribeEvents(%v) from block %d replayed %s, the chain has %s", api.name, f, from, gotH, wantH), Replay: rep(conn.snapshot(0))})
 	}
 	// 2. live blocks
 	for bi, plan := range exPlans {
